@@ -37,8 +37,17 @@ fn enc(p: &NtpPacket<'_>, buf: &mut [u8]) -> Result<Result<usize, String>, Strin
 enum Rt {
     Rejected,
     /// accepted and stable; `normalised` = the first re-encoding differs from the input
-    Stable { normalised: bool, version: u8, fields: usize, mac: bool, normal_form: u64 },
-    Violation { class: String, what: String },
+    Stable {
+        normalised: bool,
+        version: u8,
+        fields: usize,
+        mac: bool,
+        normal_form: u64,
+    },
+    Violation {
+        class: String,
+        what: String,
+    },
 }
 
 fn panic_site(msg: &str) -> &'static str {
@@ -51,7 +60,10 @@ fn panic_site(msg: &str) -> &'static str {
 
 /// The complete round-trip oracle for one input.
 fn round_trip(x: &[u8], b1: &mut [u8], b2: &mut [u8], b3: &mut [u8]) -> Rt {
-    let v = |class: &str, what: String| Rt::Violation { class: class.to_string(), what };
+    let v = |class: &str, what: String| Rt::Violation {
+        class: class.to_string(),
+        what,
+    };
     let p0 = match common::catch(|| NtpPacket::deserialize(x, &NoCipher)) {
         Ok(Ok((p, _))) => p,
         Ok(Err(_)) => return Rt::Rejected,
@@ -60,7 +72,12 @@ fn round_trip(x: &[u8], b1: &mut [u8], b2: &mut [u8], b3: &mut [u8]) -> Rt {
     };
     let n1 = match enc(&p0, b1) {
         Ok(Ok(n)) => n,
-        Ok(Err(e)) => return v("C24:encode-error", format!("accepted packet cannot be encoded: {e}; packet {p0:?}")),
+        Ok(Err(e)) => {
+            return v(
+                "C24:encode-error",
+                format!("accepted packet cannot be encoded: {e}; packet {p0:?}"),
+            );
+        }
         Err(e) => {
             return v(
                 &format!("C24:encode-panic{}", panic_site(&e)),
@@ -72,34 +89,88 @@ fn round_trip(x: &[u8], b1: &mut [u8], b2: &mut [u8], b3: &mut [u8]) -> Rt {
     let version = (x[0] >> 3) & 7;
     let p1 = match common::catch(|| NtpPacket::deserialize(&b1[..n1], &NoCipher)) {
         Ok(Ok((p, _))) => p,
-        Ok(Err(e)) => return v("C24:reencoded-rejected", format!("dec(enc(P0)) fails with {e}; P0 = {p0:?}; B1 = {}", common::hex(&b1[..n1]))),
-        Err(e) => return v("C24:redecode-panic", format!("dec(enc(P0)) panicked: {e}; B1 = {}", common::hex(&b1[..n1]))),
+        Ok(Err(e)) => {
+            return v(
+                "C24:reencoded-rejected",
+                format!(
+                    "dec(enc(P0)) fails with {e}; P0 = {p0:?}; B1 = {}",
+                    common::hex(&b1[..n1])
+                ),
+            );
+        }
+        Err(e) => {
+            return v(
+                "C24:redecode-panic",
+                format!(
+                    "dec(enc(P0)) panicked: {e}; B1 = {}",
+                    common::hex(&b1[..n1])
+                ),
+            );
+        }
     };
     let n2 = match enc(&p1, b2) {
         Ok(Ok(n)) => n,
-        Ok(Err(e)) => return v("C24:encode-error-round2", format!("enc(P1) fails: {e}; P1 = {p1:?}")),
-        Err(e) => return v(&format!("C24:encode-panic-round2{}", panic_site(&e)), format!("enc(P1) panicked: {e}; P1 = {p1:?}")),
+        Ok(Err(e)) => {
+            return v(
+                "C24:encode-error-round2",
+                format!("enc(P1) fails: {e}; P1 = {p1:?}"),
+            );
+        }
+        Err(e) => {
+            return v(
+                &format!("C24:encode-panic-round2{}", panic_site(&e)),
+                format!("enc(P1) panicked: {e}; P1 = {p1:?}"),
+            );
+        }
     };
     let p2 = match common::catch(|| NtpPacket::deserialize(&b2[..n2], &NoCipher)) {
         Ok(Ok((p, _))) => p,
-        Ok(Err(e)) => return v("C24:reencoded-rejected-round2", format!("dec(B2) fails with {e}; B2 = {}", common::hex(&b2[..n2]))),
+        Ok(Err(e)) => {
+            return v(
+                "C24:reencoded-rejected-round2",
+                format!("dec(B2) fails with {e}; B2 = {}", common::hex(&b2[..n2])),
+            );
+        }
         Err(e) => return v("C24:redecode-panic", format!("dec(B2) panicked: {e}")),
     };
     if p2 != p1 {
-        return v("C24:unstable-packet", format!("dec(B2) != P1: P1 = {p1:?}; dec(B2) = {p2:?}"));
+        return v(
+            "C24:unstable-packet",
+            format!("dec(B2) != P1: P1 = {p1:?}; dec(B2) = {p2:?}"),
+        );
     }
     let n3 = match enc(&p2, b3) {
         Ok(Ok(n)) => n,
-        Ok(Err(e)) => return v("C24:encode-error-round3", format!("enc(dec(B2)) fails: {e}")),
-        Err(e) => return v(&format!("C24:encode-panic-round3{}", panic_site(&e)), format!("enc(dec(B2)) panicked: {e}")),
+        Ok(Err(e)) => {
+            return v(
+                "C24:encode-error-round3",
+                format!("enc(dec(B2)) fails: {e}"),
+            );
+        }
+        Err(e) => {
+            return v(
+                &format!("C24:encode-panic-round3{}", panic_site(&e)),
+                format!("enc(dec(B2)) panicked: {e}"),
+            );
+        }
     };
     if b3[..n3] != b2[..n2] {
         return v(
             "C24:unstable-bytes",
-            format!("enc(dec(B2)) != B2: B2 = {}; B3 = {}", common::hex(&b2[..n2]), common::hex(&b3[..n3])),
+            format!(
+                "enc(dec(B2)) != B2: B2 = {}; B3 = {}",
+                common::hex(&b2[..n2]),
+                common::hex(&b3[..n3])
+            ),
         );
     }
-    Rt::Stable { normalised: b1[..n1] != *x, version, fields: a + e + u, mac, normal_form: n2 as u64 }
+    Rt::Stable {
+        normalised: b1[..n1] != *x,
+        version,
+        fields: a + e + u,
+        mac,
+        normal_form: n2 as u64,
+    }
 }
 
 struct Local<'a> {
@@ -151,17 +222,28 @@ impl Drop for Local<'_> {
         c.add("accepted_changed_by_normalising_round", self.normalised);
         c.add("accepted_with_mac", self.with_mac);
         for (i, n) in self.fields.iter().enumerate() {
-            c.add(&format!("accepted_with_{i}{}_fields", if i == 4 { "+" } else { "" }), *n);
+            c.add(
+                &format!("accepted_with_{i}{}_fields", if i == 4 { "+" } else { "" }),
+                *n,
+            );
         }
         c.distinct_many(self.distinct.drain());
     }
 }
 
-fn run_case(found: &c23::Findings, st: &mut Local<'_>, stage: usize, index: u64, case: &Case, pats: &[Pat]) {
+fn run_case(
+    found: &c23::Findings,
+    st: &mut Local<'_>,
+    stage: usize,
+    index: u64,
+    case: &Case,
+    pats: &[Pat],
+) {
     st.bases += 1;
     let base_key = (stage as u64) << 48 | index;
     let Local { b1, b2, b3, .. } = st;
-    let (mut evals, mut calls, mut rejected, mut normalised_n, mut with_mac) = (0u64, 0u64, 0u64, 0u64, 0u64);
+    let (mut evals, mut calls, mut rejected, mut normalised_n, mut with_mac) =
+        (0u64, 0u64, 0u64, 0u64, 0u64);
     let mut accepted = [0u64; 8];
     let mut fields_n = [0u64; 5];
     let mut distinct: Vec<u64> = Vec::new();
@@ -172,7 +254,13 @@ fn run_case(found: &c23::Findings, st: &mut Local<'_>, stage: usize, index: u64,
                 rejected += 1;
                 calls += 1;
             }
-            Rt::Stable { normalised, version, fields, mac, normal_form } => {
+            Rt::Stable {
+                normalised,
+                version,
+                fields,
+                mac,
+                normal_form,
+            } => {
                 calls += 6;
                 accepted[version as usize & 7] += 1;
                 normalised_n += normalised as u64;
@@ -186,7 +274,11 @@ fn run_case(found: &c23::Findings, st: &mut Local<'_>, stage: usize, index: u64,
             }
             Rt::Violation { class, what } => {
                 calls += 2;
-                found.report(&class, format!("{what} [mutant of {}]", case.desc), common::hex(bytes));
+                found.report(
+                    &class,
+                    format!("{what} [mutant of {}]", case.desc),
+                    common::hex(bytes),
+                );
             }
         }
     };
@@ -252,12 +344,19 @@ fn check() {
     let mut completed = 0;
     for s in 0..plan.stages.len() {
         if s > 0 && ctx.over_budget() {
-            ctx.cap_hit(&format!("stage {s} ({}) not started; stages < {s} complete", plan.stages[s].label));
+            ctx.cap_hit(&format!(
+                "stage {s} ({}) not started; stages < {s} complete",
+                plan.stages[s].label
+            ));
             break;
         }
         let total = plan.stage_total(s);
         ctx.add(&format!("stage{s}_bases"), total);
-        let chunk = if plan.stages[s].blocks.iter().any(|b| b.swept) { 1 } else { 64 };
+        let chunk = if plan.stages[s].blocks.iter().any(|b| b.swept) {
+            1
+        } else {
+            64
+        };
         common::par_for_with(
             total,
             chunk,
@@ -265,7 +364,12 @@ fn check() {
             |st, i| {
                 let case = plan.build(&env, s, i);
                 if i % 9973 == 1 {
-                    ctx.sample(format!("stage {s} base {i}: {} ({} bytes{})", case.desc, case.built.bytes.len(), if case.swept { ", swept" } else { "" }));
+                    ctx.sample(format!(
+                        "stage {s} base {i}: {} ({} bytes{})",
+                        case.desc,
+                        case.built.bytes.len(),
+                        if case.swept { ", swept" } else { "" }
+                    ));
                 }
                 run_case(&found, st, s, i, &case, &pats);
             },
@@ -275,7 +379,10 @@ fn check() {
     found.flush(&ctx);
     ctx.set("stages_completed", completed as u64);
     ctx.set("states", ctx.get("base_datagrams"));
-    ctx.set("accepted_inputs", ctx.get("accepted_v3") + ctx.get("accepted_v4") + ctx.get("accepted_v5"));
+    ctx.set(
+        "accepted_inputs",
+        ctx.get("accepted_v3") + ctx.get("accepted_v4") + ctx.get("accepted_v5"),
+    );
     ctx.exhaustive(completed == plan.stages.len());
     ctx.finish();
 }
